@@ -70,6 +70,8 @@ func newEngine(prog *ssa.Program) *Engine {
 		eng.fnByName[f.String()] = f
 	}
 	eng.registerIntrinsics()
+	eng.registerRegexIntrinsics()
+	eng.registerRegexFind()
 	eng.registerCrypto()
 	eng.registerThreads()
 	eng.registerSyncMap()
